@@ -112,6 +112,8 @@ def run(ctx):
     # packs): nothing readable becomes unreadable at any step or crash point; pre-fix variants must fail
     vlib.mc(ctx, "RepairIndex.tla", "MCRepairIndex.cfg", workers=4, timeout=600)
     vlib.mc(ctx, "RepairIndex.tla", "MCRepairIndexReadAll.cfg", workers=4, timeout=600)
+    if not q:
+        vlib.mc(ctx, "RepairIndex.tla", "MCRepairIndex3.cfg", workers=8, timeout=3000)     # three index entries
     for cfg, what in (("MCRepairIndexFirstWins.cfg", "keeps the first entry met for a pack, marked or not (the library before fix b9e4409)"),
                       ("MCRepairIndexRemoveFirst.cfg", "replaces the changed index files before the re-read packs are indexed again")):
         r = vlib.tlc("RepairIndex.tla", cfg, workers=4, timeout=600, metadir=os.path.join(ctx.out, "mc-" + cfg))
